@@ -11,8 +11,13 @@ action sequences of length <= 6 are run through the real SimulatedExecutionEnvir
   * the model of the environment (init_state with the observed oracle answer, env_apply = sim_apply, observations on the
     new state, is_goal) against every observed outcome.
 Independent Python oracles (written from the property text: problem.initial_value, literal counting, a separate
-UPSequentialSimulator on the contingent problem itself, state lookups) decide whether a disagreement is a failure of the
-PROPERTY on the implementation.
+UPSequentialSimulator on the contingent problem itself, state lookups, "no state chosen only if no assignment satisfies
+the constraints") decide whether a disagreement is a failure of the PROPERTY on the implementation.
+The model is a function of the problem and the oracle's answer ONLY; the implementation lives in a process.  Besides the
+stand-alone problems (one fresh Environment each) the check therefore runs HISTORIES (GenHistory): sequences of problems
+built over one World (one Environment, the same Fluent objects, so the same fluent expressions; sometimes two Environments
+with the same names, interleaved), environments created problem after problem, the hidden set shrinking and growing in
+between, an earlier problem run again at the end - each environment judged exactly as a stand-alone one.
 """
 import json
 import random as pyrandom
@@ -29,7 +34,7 @@ from harness.simexplore import arg_value
 META = {
     "level": "proof",
     "technique": "Coq proof (initial values of the deterministic clone = declared values at the three levels, hidden values = oracle answer, state constraints <-> assignment constraints, apply/run = sim_apply/run by induction over the action sequence, observations = values in the successor state) + model/implementation correspondence and per-run validation of the oracle's answer by vm_compute",
-    "text": "Theorems about a Gallina model of SimulatedExecutionEnvironment (clone, initial state, apply, observations, is_goal_reached) for all contingent problems, all oracle answers and all action sequences; the model, the declared-value lookup and the constraint check are compared with the real environment on generated problems x seeds x action sequences, and every step is cross-checked against a separate real UPSequentialSimulator.",
+    "text": "Theorems about a Gallina model of SimulatedExecutionEnvironment (clone, initial state, apply, observations, is_goal_reached) for all contingent problems, all oracle answers and all action sequences; the model, the declared-value lookup and the constraint check are compared with the real environment on generated problems x seeds x action sequences (stand-alone problems and histories of problems sharing fluent objects within one process), and every step is cross-checked against a separate real UPSequentialSimulator.",
     "note": "Trusted: Coq kernel/vm_compute, harness serialiser. pysmt model enumeration + random.choice is an oracle (Section variable pick); that its answer satisfies every oneof/or constraint is checked per run inside Coq. Model mirrors the repaired code (4 fix commits in /repo: per-fluent default, negated-only hidden literal, sensing-action effects, trajectory constraints). max_constraints is left at its default (None). Observed fluents have parameters/constants as arguments. Every non-Boolean fluent has a declared value (an undeclared one would start as the ill-typed constant false). The simulator's known deviation C01-grounding-syntactic-conflict is inherited from the real simulator and not re-reported.",
 }
 
@@ -226,6 +231,7 @@ class GenContingent(GenProblem):
                 try:
                     with warnings.catch_warnings():
                         warnings.simplefilter("ignore")
+                        pyrandom.seed(35)     # the constructor draws from the global random: keep the generator reproducible
                         SimulatedExecutionEnvironment(p)
                     break
                 except up.exceptions.UPProblemDefinitionError:
